@@ -681,6 +681,24 @@ type CFProg struct {
 }
 
 // genCFProg builds a program with nfuncs control-flow obfuscated functions.
+// genCFProgPick is genCFProg restricted to the named kinds, still drawing them at random.
+func genCFProgPick(r *rand.Rand, nfuncs int, exclude map[string]bool, names []string, allowTrash bool, fixed *cfParams) *CFProg {
+	ex := map[string]bool{}
+	for k, v := range exclude {
+		ex[k] = v
+	}
+	keep := map[string]bool{}
+	for _, n := range names {
+		keep[n] = true
+	}
+	for _, k := range append(cfKinds(), cfKinds2()...) {
+		if !keep[k.name] {
+			ex[k.feature] = true
+		}
+	}
+	return genCFProg(r, nfuncs, ex, nil, allowTrash, fixed)
+}
+
 func genCFProg(r *rand.Rand, nfuncs int, exclude map[string]bool, only []string, allowTrash bool, fixed *cfParams) *CFProg {
 	kinds := append(cfKinds(), cfKinds2()...)
 	var pool []cfKind
